@@ -220,6 +220,9 @@ func runCheck(eng *Engine, o checkOpts, t0 time.Time) int {
 		}
 		if reason, ok := matchUndecided(undec, name); ok {
 			nUndec++
+			if o.tier == "thorough" {
+				reason += " [attempted in this thorough run: " + d.Res.Status + "]"
+			}
 			undecided = append(undecided, name+": "+reason)
 			continue
 		}
